@@ -9,10 +9,82 @@
 #include "vf_sched.h"
 #include <sys/wait.h>
 
-static void vf_trace_step(int kind, const volatile void* addr, uintptr_t oldv, uintptr_t newv, int ok) { (void)kind; (void)addr; (void)oldv; (void)newv; (void)ok; }
+/* ---- snapshots of the delayed-free machinery (refinement level): for every page of the observed heaps the blocks on the free,
+   local-free and thread-free lists, the heap's delayed-free list, the blocks the program holds and the blocks being released right
+   now -- as block indices.  Taken after hooked atomic steps (sampled) and decided by the BlockConservation guard. */
+#if MI_ENCODE_FREELIST
+#define SNAP_NEXT(owner, b)  mi_block_nextx(owner, b, (owner)->keys)
+#else
+#define SNAP_NEXT(owner, b)  mi_block_nextx(owner, b, NULL)
+#endif
+static int snap_heap = -1;      /* index in hps of the observed (owner) heap, -1 = snapshots off */
+static int snap_rate = 3;
+static long nsnaps = 0;
+#define SNAP_MAXPAGES 24
+static int snap_list(mi_page_t* page, mi_block_t* head, const char* name) {
+  vf_logf(",\"%s\":[", name);
+  int n = 0; size_t bs = mi_page_block_size(page);
+  for (mi_block_t* b = head; b != NULL && n <= (int)page->capacity + 1; n++) {
+    size_t idx = ((uintptr_t)b - (uintptr_t)page->page_start) / bs;
+    vf_logf("%s%zu", n ? "," : "", ((uintptr_t)b >= (uintptr_t)page->page_start ? idx : 99999));
+    b = SNAP_NEXT(page, b);
+    if (b != NULL && !mi_is_in_same_page(page->page_start, b) && _mi_ptr_page(b) != page) { vf_logf(",99998"); break; }   /* link leaves the page */
+  }
+  vf_logf("]");
+  return n;
+}
+static void emit_snap(void) {
+  if (snap_heap < 0) return;
+  if (!hps[snap_heap].alive) snap_heap = 0;     /* the observed heap was deleted: its pages now belong to the backing heap */
+  mi_page_t* pages[SNAP_MAXPAGES]; int np = 0;
+  int hidxs[2] = { snap_heap, 0 };
+  for (int hh = 0; hh < 2; hh++) {
+    if (hh == 1 && snap_heap == 0) break;
+    if (!hps[hidxs[hh]].alive || hidxs[hh] == heap_dying) continue;
+    mi_heap_t* heap = hps[hidxs[hh]].hp;
+    for (size_t bin = 0; bin <= MI_BIN_FULL && np < SNAP_MAXPAGES; bin++)
+      for (mi_page_t* pg = heap->pages[bin].first; pg != NULL && np < SNAP_MAXPAGES; pg = pg->next) { if (mi_page_block_size(pg) >= 64 && pg->capacity <= 1100) pages[np++] = pg; }
+  }
+  vf_logf("{\"e\":\"snap\",\"t\":%d,\"owner_busy\":%s,\"pages\":[", cur_t, owner_busy ? "true" : "false");
+  for (int i = 0; i < np; i++) {
+    mi_page_t* pg = pages[i]; size_t bs = mi_page_block_size(pg);
+    vf_logf("%s{\"cap\":%u,\"used\":%u,\"flag\":%d", i ? "," : "", (unsigned)pg->capacity, (unsigned)pg->used, (int)mi_page_thread_free_flag(pg));
+    snap_list(pg, pg->free, "free"); snap_list(pg, pg->local_free, "lfree"); snap_list(pg, mi_page_thread_free(pg), "tfree");
+    vf_logf(",\"live\":["); int first = 1;
+    for (int s = 0; s < MAXSLOTS; s++) if (slots[s].p && slots[s].id > 0 && (uintptr_t)slots[s].p >= (uintptr_t)pg->page_start && (uintptr_t)slots[s].p < (uintptr_t)pg->page_start + (size_t)pg->capacity * bs) {
+      vf_logf("%s%zu", first ? "" : ",", ((uintptr_t)slots[s].p - (uintptr_t)pg->page_start) / bs); first = 0; }
+    for (int h = 1; h < MAXHEAPS; h++) if (hps[h].alive && h != heap_dying && hps[h].hp && (uintptr_t)hps[h].hp >= (uintptr_t)pg->page_start && (uintptr_t)hps[h].hp < (uintptr_t)pg->page_start + (size_t)pg->capacity * bs) {
+      vf_logf("%s%zu", first ? "" : ",", ((uintptr_t)hps[h].hp - (uintptr_t)pg->page_start) / bs); first = 0; }      /* heap descriptors are blocks too */
+    vf_logf("],\"flight\":["); first = 1;
+    for (int t = 0; t < 16; t++) if (vf_flight[t] && (uintptr_t)vf_flight[t] >= (uintptr_t)pg->page_start && (uintptr_t)vf_flight[t] < (uintptr_t)pg->page_start + (size_t)pg->capacity * bs) {
+      vf_logf("%s%zu", first ? "" : ",", ((uintptr_t)vf_flight[t] - (uintptr_t)pg->page_start) / bs); first = 0; }
+    vf_logf("],\"delayed\":["); first = 1;
+    for (int hh = 0; hh < 2; hh++) {
+      if (hh == 1 && snap_heap == 0) break;
+      if (!hps[hidxs[hh]].alive || hidxs[hh] == heap_dying) continue;
+      mi_heap_t* heap = hps[hidxs[hh]].hp; int guard = 0;
+      for (mi_block_t* b = mi_atomic_load_ptr_relaxed(mi_block_t, &heap->thread_delayed_free); b != NULL && guard < 2000; guard++) {
+        if ((uintptr_t)b >= (uintptr_t)pg->page_start && (uintptr_t)b < (uintptr_t)pg->page_start + (size_t)pg->capacity * bs) { vf_logf("%s%zu", first ? "" : ",", ((uintptr_t)b - (uintptr_t)pg->page_start) / bs); first = 0; }
+        b = SNAP_NEXT(heap, b);
+      }
+    }
+    vf_logf("]}");
+  }
+  vf_logf("]}"); vf_log_line_end();
+  nsnaps++;
+}
+static void vf_trace_step(int kind, const volatile void* addr, uintptr_t oldv, uintptr_t newv, int ok) {
+  (void)addr; (void)oldv; (void)newv; (void)ok;
+  if (snap_heap < 0 || kind == VF_K_LOAD) return;
+  if ((vf_srand() % (uint64_t)snap_rate) != 0) return;
+  vf_in_hook = 1; int saved = vf_in_call; vf_in_call = 0;
+  emit_snap();
+  vf_in_call = saved; vf_in_hook = 0;
+}
 
 typedef struct { int t; int heapid; int give[64]; int ngive; int own_allocs; size_t own_lo, own_hi; int exit_with_live; int collect; } role_t;
 static role_t roles[VF_MAXT];
+static int snapshots_on = 0;
 static size_t blk_lo = 8000, blk_hi = 8192;
 
 static void visit_expect_clean(int hidx) {
@@ -67,6 +139,7 @@ static void prog_page(int nremote, int owner_ops, int variant /* 0 plain, 1 heap
     while (g-- > 0 && nm > 0) { int j = (int)vf_randn((uint64_t)nm); r->give[r->ngive++] = mine[j]; mine[j] = mine[--nm]; }
   }
   for (int k = 0; k < nremote; k++) vf_spawn(remote_main, &roles[k + 1]);
+  if (snapshots_on) snap_heap = hi;
   vf_sched_go();
   /* the owner: malloc / free / collect (and heap delete) racing with the remote frees */
   int deleted = 0;
@@ -85,6 +158,7 @@ static void prog_page(int nremote, int owner_ops, int variant /* 0 plain, 1 heap
     else { op_write(); }
   }
   vf_wait_all();
+  if (snap_heap >= 0) { vf_in_hook = 1; emit_snap(); vf_in_hook = 0; snap_heap = -1; }
   /* quiescence: everything is freed by whoever, the owner collects: the heap holds no live pages (C08) */
   for (int s = 0; s < MAXSLOTS; s++) if (slots[s].p) op_free_slot(s, FR_free);
   { ret_t r; memset(&r, 0, sizeof(r));
@@ -351,6 +425,7 @@ int main(int argc, char** argv) {
     else if (!strcmp(argv[i], "--spurious") && i + 1 < argc) { vf_spurious_left = atoi(argv[++i]); vf_spurious_rate = 6; }
     else if (!strcmp(argv[i], "--size") && i + 2 < argc) { blk_lo = (size_t)atol(argv[++i]); blk_hi = (size_t)atol(argv[++i]); }
     else if (!strcmp(argv[i], "--sched") && i + 1 < argc) schedfile = argv[++i];
+    else if (!strcmp(argv[i], "--snap") && i + 1 < argc) { snapshots_on = 1; snap_rate = atoi(argv[++i]); if (snap_rate < 1) snap_rate = 1; }
     else { fprintf(stderr, "usage: drv_conc --out F [--prog P] [--seed S] [--runs N] [--strategy random|pct|guided|replay|dfs] [--sched file]\n"); return 2; }
   }
   if (!out) return 2;
